@@ -118,6 +118,28 @@ pub fn record(out_path: &str, only_state: Option<&str>) -> i32 {
             if method == "debug_getRawHeader" {
                 variants.push(json!([ctx.block_hash]));
             }
+            // every class of every parameter (the partition of RpcSurface.tla): an omitted optional parameter, another
+            // block tag, a filter without bounds ... may take another path through the locks.  Read-only methods run them
+            // all on this instance; a mutating method gets the "absent"/"null" classes only
+            let mutating = methods::MUTATING.contains(&method.as_str());
+            // (mid-block every simulation waits 5 s for the block to end and fails without touching a lock: base variant only)
+            let with_classes = *state != "midblock";
+            for (pi, (_, ty)) in crate::surface::schema(method).iter().enumerate() {
+                if !with_classes {
+                    break;
+                }
+                for class in crate::surface::classes(ty) {
+                    if mutating && class != "absent" && class != "null" {
+                        continue;
+                    }
+                    if matches!(class, "bomb" | "big" | "huge" | "hugeto" | "hugeboth" | "many" | "bigcalldata" | "burnall") {
+                        continue;
+                    }
+                    if let Some(pv) = crate::surface::params_for(method, pi, class, &ctx) {
+                        variants.push(pv);
+                    }
+                }
+            }
             for (vi, params) in variants.into_iter().enumerate() {
                 brc20_prog::verif::lock_trace_start(None);
                 let _ = brc20_prog::verif::lock_trace_take();
